@@ -91,4 +91,10 @@ def sinkProg (progs : List (List Instr)) (r : Rec) : List Instr :=
   progs.getD (sevOf r) (progs.headD [])    -- (codes beyond the six severities — the driver's "long info record" — fall
                                             --  back on the first body; all six are proved to have the same shape)
 
+/-- sink bodies of the shape the theorems of `Props/C09` are about, decidably: lock guard first, then
+one insertion, then only flushes (`Props.C09.goodProg_sound`) -/
+def goodProg : List Instr → Bool
+  | .lock :: .write :: tail => tail.all (· == .flush)
+  | _ => false
+
 end NitroVerif.MT
